@@ -1355,14 +1355,14 @@ namespace jsoncons {
             if (other.storage_kind() == json_storage_kind::const_json_ref)
             {
                 auto alloc = cast<long_string_storage>().get_allocator();
-                destroy();
-                uninitialized_copy_a(other.cast<const_json_ref_storage>().value(), alloc);
+                basic_json temp(other.cast<const_json_ref_storage>().value(), alloc); // copy first: if it throws, *this is untouched
+                swap(temp);
             }
             else if (other.storage_kind() == json_storage_kind::json_ref)
             {
                 auto alloc = cast<long_string_storage>().get_allocator();
-                destroy();
-                uninitialized_copy_a(other.cast<json_ref_storage>().value(), alloc);
+                basic_json temp(other.cast<json_ref_storage>().value(), alloc);
+                swap(temp);
             }
             else if (is_primitive_storage(other.storage_kind()))
             {
@@ -1376,15 +1376,15 @@ namespace jsoncons {
                     case json_storage_kind::long_str:
                     {
                         auto alloc = cast<long_string_storage>().get_allocator();
-                        destroy();
-                        uninitialized_copy_a(other, alloc);
+                        basic_json temp(other, alloc);
+                        swap(temp);
                         break;
                     }
                     case json_storage_kind::byte_str:
                     {
                         auto alloc = cast<byte_string_storage>().get_allocator();
-                        destroy();
-                        uninitialized_copy_a(other, alloc);
+                        basic_json temp(other, alloc);
+                        swap(temp);
                         break;
                     }
                     case json_storage_kind::array:
@@ -1400,14 +1400,14 @@ namespace jsoncons {
             }
             else if (is_trivial_storage(storage_kind())) // rhs is not trivial storage
             {
-                destroy();
-                uninitialized_copy(other);
+                basic_json temp(other);
+                swap(temp);
             }
             else // lhs and rhs are not trivial storage
             {
                 auto alloc = get_allocator();
-                destroy();
-                uninitialized_copy_a(other, alloc);
+                basic_json temp(other, alloc);
+                swap(temp);
             }
         }
 
